@@ -31,7 +31,8 @@ CONSTANTS MaxCalls,      \* bound on the number of handler calls (configurations
                          \* responses do not commit: warn forwards them, strict drops them)
 
 FinalStatuses == {200, 201, 500}
-Statuses   == FinalStatuses \cup InfoStatuses      \* InfoStatuses: FindingsC14 (1xx other than 101)
+NoBodyStatuses == {204}                             \* final statuses that forbid a body: net/http refuses every Write after them
+Statuses   == FinalStatuses \cup NoBodyStatuses \cup InfoStatuses      \* InfoStatuses: FindingsC14 (1xx other than 101)
 CTs        == {"json", "text"}
 Toks       == {"A", "B", "N", "P1", "P2", "E"}
 (* request classes realised by the harness against the test documents.                      *)
@@ -125,6 +126,7 @@ Clear(ts) == LET n == NonEmpty(ts) IN
 
 (* The handler alphabet.  Core: Header().Set, WriteHeader (final status), Write, Flush.                              *)
 (* Extended (IsExt): WriteHeader(1xx) (informational: net/http sends it and leaves the header open),                *)
+(*   WriteHeader(204) (a final status that forbids a body: what the handler writes afterwards never leaves the server) *)
 (*   Copy   io.Copy(w, reader over the token) -- no ReaderFrom on the wrappers: one Write per chunk, NO call at all  *)
 (*          for an empty reader (unlike Write of an empty slice, which commits the header)                           *)
 (*   FC     http.NewResponseController(w).Flush()  -- same meaning as F, other route to the Flusher                  *)
@@ -133,10 +135,10 @@ Clear(ts) == LET n == NonEmpty(ts) IN
 (*   Panic  the handler panics (always its last call)                                                                *)
 CoreCalls == [c : {"SetCT"}, ct : CTs] \cup [c : {"WH"}, s : FinalStatuses]
                \cup [c : {"W"}, tok : Toks] \cup [c : {"F"}]
-ExtCalls  == [c : {"WH"}, s : InfoStatuses] \cup [c : {"Copy"}, tok : {"A", "B", "E"}]
+ExtCalls  == [c : {"WH"}, s : InfoStatuses \cup NoBodyStatuses] \cup [c : {"Copy"}, tok : {"A", "B", "E"}]
                \cup [c : {"FC"}] \cup [c : {"RB"}] \cup [c : {"Probe"}] \cup [c : {"Panic"}]
 Calls     == CoreCalls \cup ExtCalls
-IsExt(c)  == c.c \in {"Copy", "FC", "RB", "Probe", "Panic"} \/ (c.c = "WH" /\ c.s \in InfoStatuses)
+IsExt(c)  == c.c \in {"Copy", "FC", "RB", "Probe", "Panic"} \/ (c.c = "WH" /\ c.s \in InfoStatuses \cup NoBodyStatuses)
 
 (* what a call amounts to on an http.ResponseWriter: one of SetCT / WH / W / F, or nothing *)
 Nop == [c |-> "Nop"]
@@ -165,7 +167,8 @@ RespValid(status, ct, body) == RespValidOpt("none", status, ct, body)
 (* made on that writer.  First WriteHeader with a final status wins, WriteHeader(1xx)    *)
 (* (other than 101) sends an informational response and commits nothing, Write and Flush *)
 (* imply WriteHeader(200), returning without any call is an implicit 200; a status       *)
-(* outside 100..999 panics.                                                              *)
+(* outside 100..999 panics; once a status that forbids a body (204, 304) is committed,   *)
+(* Write is refused (http.ErrBodyNotAllowed) and nothing of it reaches the client.       *)
 (* Every raw event carries ct, the Content-Type in the header map at that instant.       *)
 ClientInit == [wrote |-> FALSE, status |-> 0, ct |-> "none", body |-> "", panicked |-> FALSE]
 
@@ -177,7 +180,8 @@ ClientStep(cl, ev) ==
    CASE ev.e = "WH" -> IF ev.s < 100 \/ ev.s > 999 THEN [cl EXCEPT !.panicked = TRUE]
                        ELSE IF Informational(ev.s) THEN cl
                        ELSE Commit(cl, ev.s, ev.ct)
-     [] ev.e = "W"  -> LET c == Commit(cl, 200, ev.ct) IN [c EXCEPT !.body = @ \o ev.data]
+     [] ev.e = "W"  -> LET c == Commit(cl, 200, ev.ct) IN
+                       IF c.status \in {204, 304} THEN c ELSE [c EXCEPT !.body = @ \o ev.data]
      [] ev.e = "F"  -> Commit(cl, 200, ev.ct)
 
 RECURSIVE ClientRun(_, _)
